@@ -20,7 +20,7 @@ From BB Require Import BN Brute SpaceFacts TrapFacts PercolateFacts AttractorFac
   Strict PetriNet Control Meta FilterFacts PetriNetFacts TrappistFacts DiagramStruct DiagramSem1 DiagramCache
   DiagramDepth DiagramComplete Termination ControlFacts MetaFacts Candidates StrictFacts MinExpandFacts CandidatesFacts SymbolicTest SymbolicTestFacts Signed ReductionFacts ControlFacts2 Main Blocks BlocksFacts ObsFacts OwnerFacts CandidatesTerm
   PartialOwner BlockMath BlockComplete ASeeds ASeedsFacts LogChecks SkipRule SkipRuleFacts Names NamesFacts Perm PermFacts SCC SCCFacts SCCStruct ControlFacts3 SCCTerm FilterSym Main2 StrategyFacts ControlFacts4 SkipRuleFacts2 SCCComplete SCCAttr BlockComplete2 ControlFacts5 Iso SkipSem ControlFacts6.
-From BB Require Import PyLib PyLibSd PySrcSdBase PySrcSd PySrcSdFacts PyLib PyLibSd PyLibCore PyLibSd2 PySrcSdBase PySrcSdMin PySrcSdMinFacts.
+From BB Require Import PyLib PyLibSd PySrcSdBase PySrcSd PySrcSdFacts PyLib PyLibSd PyLibCore PyLibSd2 PySrcSdBase PySrcSdMin PySrcSdMinFacts Candidates Blocks ASeeds PySrcSdASeeds PySrcSdASeedsFacts.
 
 (* translator tie: the function GENERATED from the current text of biobalm/_sd_algorithms/expand_minimal_spaces.py (with its nested make_skip_node; PySrcSdMin.v) equals the model's expand_min on every well-formed diagram, for every start node, limit, skip option and fuel, given the tape contract *)
 Theorem C03_source_expand_minimal_spaces : forall (fuel : nat) (N : net) (cfg : config) (d : sd) (start size_limit : option nat) (skip : bool) (tape : list space), SWF N d -> TrapNodes N d -> EdgeStrict d -> start_of start < size d -> perm_of tape (min_traps_b N (n_space (get d (start_of start)))) = true -> py_expand_minimal_spaces fuel N cfg d tape start size_limit skip = expand_min fuel N cfg d start size_limit skip tape.
@@ -28,6 +28,13 @@ Proof. exact py_expand_minimal_spaces_spec. Qed.
 
 Theorem C03_source_public_expand_minimal_spaces : forall (fuel : nat) (N : net) (cfg : config) (d : sd) (start size_limit : option nat) (skip : bool) (tape : list space), SWF N d -> TrapNodes N d -> EdgeStrict d -> start_of start < size d -> perm_of tape (min_traps_b N (n_space (get d (start_of start)))) = true -> py_api_expand_minimal_spaces fuel N cfg d tape start size_limit skip = expand_min fuel N cfg d start size_limit skip tape.
 Proof. exact py_api_expand_minimal_spaces_spec. Qed.
+
+(* translator tie: the function GENERATED from the current text of biobalm/_sd_algorithms/expand_attractor_seeds.py (PySrcSdASeeds.v: the initial minimal-space expansion, the DFS with the candidate query -- avoid sets, heuristic retained set, reduced-STG fixed points -- and the NFVS tape) equals the model's ASeeds.expand_aseeds *)
+Theorem C03_source_expand_attractor_seeds : forall (fuel : nat) (N : net) (cfg : config) (d : sd) (size_limit : option nat) (min_tape : list space) (tape : list (list nat)), SWF N d -> TrapNodes N d -> EdgeStrict d -> perm_of min_tape (min_traps_b N (n_space (get d 0))) = true -> py_expand_attractor_seeds fuel N cfg d min_tape tape size_limit = expand_aseeds fuel N cfg d size_limit min_tape tape.
+Proof. exact py_expand_attractor_seeds_spec. Qed.
+
+Theorem C03_source_public_expand_attractor_seeds : forall (fuel : nat) (N : net) (cfg : config) (d : sd) (size_limit : option nat) (min_tape : list space) (tape : list (list nat)), SWF N d -> TrapNodes N d -> EdgeStrict d -> perm_of min_tape (min_traps_b N (n_space (get d 0))) = true -> py_api_expand_attractor_seeds fuel N cfg d min_tape tape size_limit = expand_aseeds fuel N cfg d size_limit min_tape tape.
+Proof. exact py_api_expand_attractor_seeds_spec. Qed.
 
 (* the nested make_skip_node on its own equals the model's make_skip_node when the node is expanded or its space is not one of the minimal trap spaces (always the case inside expand_minimal_spaces); without that condition the text asserts where the model adds a self-loop: py_make_skip_node_spec_counterexample *)
 Theorem C03_source_make_skip_node : forall (N : net) (cfg : config) (d : sd) (i : nat) (all_min : list space), SWF N d -> TrapNodes N d -> EdgeStrict d -> i < size d -> (forall m : space, In m all_min -> min_trap N m) -> (n_exp (get d i) = false -> ~ In (n_space (get d i)) all_min) -> exists u : sflow unit unit, py_expand_minimal_spaces__make_skip_node N cfg d i all_min = u /\ (u = SRet (make_skip_node N d i all_min) Datatypes.tt \/ u = SNext (make_skip_node N d i all_min) Datatypes.tt).
@@ -180,6 +187,8 @@ Proof. vm_compute. split; reflexivity. Qed.
 
 Print Assumptions C03_source_expand_minimal_spaces.
 Print Assumptions C03_source_public_expand_minimal_spaces.
+Print Assumptions C03_source_expand_attractor_seeds.
+Print Assumptions C03_source_public_expand_attractor_seeds.
 Print Assumptions C03_source_make_skip_node.
 Print Assumptions C03_source_make_skip_node_counterexample.
 Print Assumptions C03_source_expand_bfs.
